@@ -35,23 +35,23 @@ var NamePool = []string{"a", "b", "c", "d", "e", "f", "g", "h", "x", "y", "z", "
 
 // GenOpts controls frame generation.
 type GenOpts struct {
-	Rows       int
-	MinCols    int
-	MaxCols    int
-	Kinds      []Kind // allowed kinds (default all)
-	ID         bool   // add the unique __id column
-	NoCR       bool   // no carriage returns in strings
-	UTF8       bool   // only valid UTF-8 strings
-	NoNull     bool   // no null / NaN cells
-	NoInf      bool   // no infinities
-	PlainNaN   bool   // only the canonical NaN
-	SmallInts  bool   // ints in a small range (no overflow in arithmetic)
-	ExactFloat bool   // floats are small dyadic rationals (sums are exact)
-	LowCard    int    // 0 = mixed; >0 = every column draws from at most this many distinct values
-	Names      []string
-	Strings    []string // override string pool
-	MaxEnumCard int     // default 12
-	IDName     string
+	Rows        int
+	MinCols     int
+	MaxCols     int
+	Kinds       []Kind // allowed kinds (default all)
+	ID          bool   // add the unique __id column
+	NoCR        bool   // no carriage returns in strings
+	UTF8        bool   // only valid UTF-8 strings
+	NoNull      bool   // no null / NaN cells
+	NoInf       bool   // no infinities
+	PlainNaN    bool   // only the canonical NaN
+	SmallInts   bool   // ints in a small range (no overflow in arithmetic)
+	ExactFloat  bool   // floats are small dyadic rationals (sums are exact)
+	LowCard     int    // 0 = mixed; >0 = every column draws from at most this many distinct values
+	Names       []string
+	Strings     []string // override string pool
+	MaxEnumCard int      // default 12
+	IDName      string
 }
 
 // RowCounts is the default list of row counts crossing internal thresholds.
